@@ -255,7 +255,11 @@ func (c *Chain) keyOfVal(v common.ValidatorIndex) KeyNum {
 func (p *ProposeCtx) spare() bool {
 	c := p.C
 	need := int(c.Spec.SLOTS_PER_EPOCH) + 2
-	if m := c.initialVals * 2 / 5; m > need {
+	share := c.SpareShare
+	if share == 0 {
+		share = 40
+	}
+	if m := c.initialVals * share / 100; m > need {
 		need = m
 	}
 	return c.healthy(p.Flats, p.Epoch)-p.removed > need
@@ -809,7 +813,11 @@ func (c *Chain) fillEth1AndDeposits(p *ProposeCtx) {
 		}
 	}
 	if c.HaveCandidate && cur != c.Eth1Candidate && c.Eth1Candidate.DepositCount > cur.DepositCount {
-		switch x := c.Rng.Intn(100); {
+		x := c.Rng.Intn(100)
+		if c.VoteAlways {
+			x = 0
+		}
+		switch {
 		case x < 94:
 			vote = c.Eth1Candidate
 			p.Ops["eth1_vote_candidate"]++
